@@ -239,6 +239,62 @@ def candidates(symbols, domain, rng, default_box, eps=None, primed=None, n_base=
                     yield r
 
 
+def equality_projection(conds, symbols, consts, eps=None):
+    """A path that decided `expr == 0` TRUE has no witness among random points.  For every such condition that is linear in one
+    of the symbols, solve for that symbol: callable(point) -> the point moved onto the equalities (the other coordinates are
+    kept), or None when the path has no equality / none is solvable.  The projected point is still judged by the native
+    evaluation of ALL conditions, so a projection that is inexact in float64 simply yields no witness."""
+    names = {s.name: s for s in symbols}
+    steps = []
+    sub = {}
+    for cond, d in conds:
+        if not isinstance(cond, sp.Basic):
+            continue
+        if not ((isinstance(cond, sp.Eq) and d) or (isinstance(cond, sp.Ne) and not d)):
+            continue
+        lhs, rhs = cond.args
+        if isinstance(lhs, sp.Function) or isinstance(rhs, sp.Function):
+            continue
+        try:
+            diff_ = sp.expand((lhs - rhs).xreplace(consts).xreplace(sub))
+        except Exception:
+            continue
+        free = [x for x in diff_.free_symbols if x.name in names and (eps is None or x.name != eps.name) and x not in sub]
+        free.sort(key=lambda x: (sp.count_ops(sp.diff(diff_, x)), x.name))
+        for x in free:
+            c1 = sp.diff(diff_, x)
+            if c1 == 0 or x in c1.free_symbols:
+                continue
+            rest = sp.expand(diff_ - c1 * x)
+            if x in rest.free_symbols:
+                continue
+            sol = -rest / c1
+            args = sorted(sol.free_symbols, key=lambda s_: s_.name)
+            if any(a.name not in names for a in args):
+                continue
+            try:
+                f = sp.lambdify(args, sol, modules=["math"])
+            except Exception:
+                continue
+            steps.append((x.name, f, [a.name for a in args]))
+            sub[x] = sol
+            break
+    if not steps:
+        return None
+
+    def proj(point):
+        q = dict(point)
+        # later solutions may mention earlier solved symbols only through `sub` (already substituted), so one pass in
+        # reverse dependency order is enough: evaluate each solution on the free coordinates
+        try:
+            for name, f, args in steps:
+                q[name] = float(f(*[q[a] for a in args]))
+        except (ZeroDivisionError, ValueError, OverflowError, KeyError, TypeError):
+            return None
+        return q
+    return proj
+
+
 def witnesses(conds, symbols, domain, consts, seed, default_box, eps=None, primed=None, want=3, budget=6000):
     """up to `want` inputs on which the recorded branch outcomes are reproduced by native evaluation of the conditions"""
     import random
@@ -247,11 +303,26 @@ def witnesses(conds, symbols, domain, consts, seed, default_box, eps=None, prime
         return None
     rng = random.Random(seed)
     found = []
+    proj = None
     for k, p in enumerate(candidates(symbols, domain, rng, default_box, eps=eps, primed=primed, n_base=40)):
         if k > budget or len(found) >= 60:
             break
         if ev(p):
             found.append(p)
+    if not found:
+        # no random point lies on the path: if the path decided equalities, move the candidates onto them
+        try:
+            proj = equality_projection(conds, symbols, consts, eps=eps)
+        except Exception:
+            proj = None
+        if proj is not None:
+            rng = random.Random(seed + 1)
+            for k, p in enumerate(candidates(symbols, domain, rng, default_box, eps=eps, primed=primed, n_base=40)):
+                if k > budget or len(found) >= 60:
+                    break
+                q = proj(p)
+                if q is not None and ev(q):
+                    found.append(q)
     if not found:
         return []
 
